@@ -439,10 +439,9 @@ Proof.
   - assert (Hne : name <> []).
     { apply N.eqb_eq in E0. subst tit. destruct Hs as [[_ Hne]|[Hs|Hs]]; [exact Hne|discriminate Hs|discriminate Hs]. }
     destruct (negb (has_wildcard name)).
-    + destruct (new_topic_id cfg s) as [s1 [i|]] eqn:Hn.
-      * apply Hgo; [|exact Hne]. inv_tac. apply reg_ok_insert; [|exact Hne].
-        apply inv_reg. inv_tac.
-      * apply good_sn_send; [inv_tac|exact I].
+    + destruct (register_topic cfg s name) as [s1 [i|]] eqn:Hn.
+      * apply Hgo; [|exact Hne]. inv_tac. exact Hne.
+      * apply good_sn_send; [inv_tac; exact Hne|exact I].
     + apply Hgo; assumption.
   - destruct (tit =? 1) eqn:E1.
     + destruct (get_name (predefined cfg) (gw_client_id s) tid) as [topic|] eqn:Hg; [|apply good_stop, H].
@@ -743,3 +742,6 @@ Theorem chk_C24_sound_partial : forall cfg s ev, wf_cfg' cfg -> reach' cfg s -> 
   chk_C24 (obs_of_outs (snd (gw_step cfg s ev))) = [].
 Proof. intros cfg s ev Hcfg Hr Hev. apply chk_C24_outs, gw_step_outs_ok; assumption. Qed.
 
+
+Print Assumptions chk_C23_sound_partial'.
+Print Assumptions chk_C24_sound_partial.
